@@ -212,4 +212,18 @@ CHECKS = {
                                                                 "nine_or_more_on_one_level", "job_only_level"])],
         assumptions=["no exact dispatch ratios are checked, only the bounds the statement gives"],
     ),
+    "C02": dict(
+        title="IPC: requests, responses and events exactly once, in order, intact",
+        level="exploration",
+        design_ref="DESIGN.md section 4, C02",
+        technique="stateful model-based property testing: in-process client(s)+server stepped by the case, three FIFO reference queues per connection, readability invariant at quiescence",
+        level_text="client(s) and server of a real service run in one thread (the server's poll handlers are the harness's dispatcher, a 'server step' dispatches one ready descriptor chosen by the case; "
+                   "the client uses zero-timeout calls); generated op lists over both transports with sizes around the negotiated maximum, flow control / rate limit changes, fc_enable_max, shrunk "
+                   "notification-socket buffers and event bursts are compared with FIFO queues per connection and direction; refused sends must have no effect; at server quiescence a queued event implies a readable descriptor",
+        level_note="trusted: the queue model; client and server share one thread, so races inside a single ring operation are C01's subject, and blocking variants of the calls are not exercised here",
+        stages=[rnd("msgs", "c02", 40000, 1500000, essential=["refused_then_retried", "two_in_flight", "deferred_notification", "size_at_limit", "size_beyond_limit", "fc_toggled_midburst", "shm", "socket",
+                                                                "event_readable_checked", "response_from_callback", "response_from_outside", "three_clients", "ring_full_refusal", "sendv"])],
+        assumptions=["at most 48 requests of one client are outstanding (beyond ~278 the client spins on the full notification socket, which cannot make progress in one thread)",
+                     "readability of the event descriptor is demanded only when the server's dispatcher has nothing left to do (deferred notifications are re-sent from the server's loop)"],
+    ),
 }
